@@ -70,10 +70,10 @@ def call(fn, spell, ops, p, kw):
             a, b = ops
             return a + b if fn == "add" else (a - b if fn == "subtract" else a * b)
         if spell == "np":
-            return getattr(np, fn)(*ops, **kw)
+            return getattr(np, fn)(*ops)
         return getattr(mg, fn)(*ops, **kw)
     if fn in ("maximum", "minimum"):
-        return (getattr(np, fn) if spell == "np" else getattr(mg, fn))(*ops, **kw)
+        return getattr(np, fn)(*ops) if spell == "np" else getattr(mg, fn)(*ops, **kw)
     if fn == "negative":
         return -ops[0] if spell == "op" else mg.negative(ops[0], **kw)
     if fn == "positive":
@@ -81,7 +81,7 @@ def call(fn, spell, ops, p, kw):
     if fn == "square":
         return ops[0] ** 2 if spell == "op" else mg.square(ops[0], **kw)
     if fn == "abs":
-        return abs(ops[0]) if spell == "op" else mg.abs(ops[0], **kw)
+        return mg.abs(ops[0], **kw)
     if fn == "relu":
         return relu(ops[0], **kw)
     if fn == "where":
@@ -209,7 +209,7 @@ def run_case(case):
                 exc = "Other:%s:%s" % (type(e).__name__, str(e)[:200])
         outcomes.append(exc)
         if mode == "all" or (mode == "backward" and k in ("backward", "clear", "null_grad")):
-            observations.append({"after": i, "obs": observe(env)})
+            observations.append({"after": i + 1, "obs": observe(env)})
     observations.append({"after": len(case["stmts"]), "obs": observe(env)})
     env.t.clear()
     return {"outcomes": outcomes, "observations": observations}
